@@ -399,6 +399,97 @@ def scalars_for(rng, q, nwords):
     return res
 
 
+def sqrt_any(a, p):
+    """square root mod an odd prime (Tonelli-Shanks), None for a non-residue"""
+    a %= p
+    if a == 0:
+        return 0
+    if pow(a, (p - 1) // 2, p) != 1:
+        return None
+    if p % 4 == 3:
+        return pow(a, (p + 1) // 4, p)
+    q, s = p - 1, 0
+    while q % 2 == 0:
+        q //= 2
+        s += 1
+    z = 2
+    while pow(z, (p - 1) // 2, p) != p - 1:
+        z += 1
+    m, c, t, r = s, pow(z, q, p), pow(a, q, p), pow(a, (q + 1) // 2, p)
+    while t != 1:
+        i, t2 = 0, t
+        while t2 != 1:
+            t2 = t2 * t2 % p
+            i += 1
+        b = pow(c, 1 << (m - i - 1), p)
+        m, c, t, r = i, b * b % p, t * b * b % p, r * b % p
+    return r
+
+
+# a curve whose group order needs MORE words than the field: y^2 = x^3 - 3x + 423 over p = 2^64 - 59 has the prime
+# order 0x100000001D0F29E01 (65 bits, Hasse: up to p + 1 + 2 sqrt p)
+LONG_ORDER = (2 ** 64 - 59, 2 ** 64 - 59 - 3, 423, 0x100000001D0F29E01)
+
+
+def gen_lengths(ctx, std, quick, W=64):
+    """Every entry point with a scalar-length parameter (ecMulA, ecHasOrderA, ecAddMulA's (point, scalar, length) triples)
+    with EVERY length m in 1 .. n+2 (n = words of the field), scalars being exact-size heap blocks in the harness:
+    multiples of the point's order with exactly m words (answer O / TRUE only if all m words and no more are read),
+    their neighbours, the same scalars zero-padded to longer m, and scalars cut to fewer words than the field.
+    Includes the curve whose order has n+1 words."""
+    rng = ctx.rng
+    sfx = "" if W == 64 else "32"
+    ops = []
+    cases = []          # (p, A, B, P, order of P, n)
+    for p, A, B in [(23, 1, 1), (59, 56, 3), (11, 8, 2)]:
+        pts = points(p, A, B)
+        for P in rng.sample(pts, 2 if quick else min(6, len(pts))):
+            k, T = 1, P
+            while T is not None:
+                T = ec_add(T, P, p, A)
+                k += 1
+            cases.append((p, A, B, P, k, 1))
+    p, A, B, N = LONG_ORDER
+    for _ in range(1 if quick else 3):
+        while True:
+            x = rng.randrange(p)
+            y = sqrt_any(x ** 3 + A * x + B, p)
+            if y is not None and y != 0:
+                break
+        cases.append((p, A, B, (x, rng.choice([y, p - y])), N, 64 // W))
+    for name, (p, A, B, q, xG, yG) in std.items():
+        if quick and name not in ("bign256", "bign96"):
+            continue
+        cases.append((p, A, B, (xG, yG), q, (p.bit_length() + W - 1) // W))
+    for p, A, B, P, od, n in cases:
+        cur = "%x %x %x %x %x" % (p, A, B, P[0], P[1])
+        for m in range(1, n + 3):
+            lo, hi = (1 << (W * (m - 1))), (1 << (W * m)) - 1
+            ds = [lo, hi, rng.randrange(lo, hi + 1)]
+            if hi // od >= 1 and (hi // od) * od >= lo:
+                c = rng.randrange(-(-lo // od), hi // od + 1)
+                ds += [od * c, od * c + 1, od * c - 1] + ([od * (hi // od)] if not quick else [])
+            for d in ds:
+                if not (0 < d <= hi):
+                    continue
+                mmin = max(1, (d.bit_length() + W - 1) // W)
+                for mm in sorted(set([mmin, m, n, n + 1, n + 2])):
+                    if mm < mmin:
+                        continue
+                    ops.append("hasorder%s %s %x %x" % (sfx, cur, d, mm))
+                    if mm in (mmin, m) or not quick:
+                        ops.append("mul%s %s %x %x" % (sfx, cur, d, mm))
+                # the same scalar as a term of the multi-scalar sum, its length given by zero padding
+                pad = "0" * (W // 4) * rng.choice([0, 1, 2])
+                ops.append("addmul%s %x %x %x %x %x %s%x %x %x 1" % (sfx, p, A, B, P[0], P[1], pad, d, P[0], P[1]))
+            # fewer words than the scalar has: only its low m words are passed (a different scalar, exact-size buffer)
+            big = od * rng.randrange(1, 1 << (W * 2)) + rng.choice([0, 0, 1])
+            low = big % (1 << (W * m))
+            ops.append("hasorder%s %s %x %x" % (sfx, cur, low, m))
+            ops.append("mul%s %s %x %x" % (sfx, cur, low, m))
+    return ops
+
+
 def gen_small(ctx, quick):
     rng = ctx.rng
     ops, stats = [], {"curves": 0, "pairs": 0, "complete_primes": [], "a3_curves": 0, "order2_curves": 0}
@@ -692,6 +783,13 @@ CORPUS = [
     # P - (-P) in ecpSubAA, P + P in ecpAddAA, order-two point
     "subaa 17 1 1 n 3 a 3 d", "subaa 17 1 1 n 3 a 3 a", "addaa 17 1 1 abc 3 a 3 a", "addaa 17 1 1 n 4 0 4 0",
     "dbl 17 1 1 n 4 0 1", "tpl 17 1 1 n 4 0 1", "tpl 17 1 1 ca c b 2", "tpl 17 14 5 ca c b 2",
+    # scalar length m != n: the group order of y^2 = x^3 - 3x + 423 over p = 2^64 - 59 has n + 1 = 2 words
+    "hasorder ffffffffffffffc5 ffffffffffffffc2 1a7 3 15 100000001d0f29e01 2",
+    "hasorder ffffffffffffffc5 ffffffffffffffc2 1a7 3 15 100000001d0f29e01 3",
+    "hasorder ffffffffffffffc5 ffffffffffffffc2 1a7 3 15 1d0f29e01 1",
+    "mul ffffffffffffffc5 ffffffffffffffc2 1a7 3 15 100000001d0f29e01 2",
+    "mul ffffffffffffffc5 ffffffffffffffc2 1a7 3 15 100000001d0f29e00 2",
+    "addmul ffffffffffffffc5 ffffffffffffffc2 1a7 3 15 100000001d0f29e00 3 15 1",
 ]
 
 
@@ -772,14 +870,14 @@ def run(ctx):
     if quick:
         std = {k: v for k, v in std.items() if k in ("bign256", "bign384", "bign512", "bign96", "gost512B")}
     small, stats = gen_small(ctx, quick)
-    ops = CORPUS + small + gen_naf(ctx, quick) + gen_small_mul(ctx, quick) + gen_small_misc(ctx, quick) + gen_two_word(ctx, quick) + gen_big(ctx, std, quick)
+    ops = CORPUS + small + gen_naf(ctx, quick) + gen_lengths(ctx, std, quick) + gen_small_mul(ctx, quick) + gen_small_misc(ctx, quick) + gen_two_word(ctx, quick) + gen_big(ctx, std, quick)
     mism = []
     if os.path.exists(ctx.driver()):
         mism, c_out, l_out = ctx.diff_run(exe, ops, "ec-differential")
         # 32-bit-word build: scalar routines with lengths in 32-bit words (window width 3), and a sample of the
         # word-size independent lines
         exe32 = ctx.cc("harness/c06.c", "w32")
-        ops32 = gen_w32(ctx, std, quick) + [o for o in ops if kind_of(o) in ("pair", "swu", "ison", "naf")][:: (40 if quick else 10)]
+        ops32 = gen_w32(ctx, std, quick) + gen_lengths(ctx, std, quick, 32) + [o for o in ops if kind_of(o) in ("pair", "swu", "ison", "naf")][:: (40 if quick else 10)]
         m32, _, _ = ctx.diff_run(exe32, ops32, "ec-differential-w32")
         mism += m32
         # ASSERT-enabled build: preconditions / internal assertions (e.g. the leading NAF digit in ecMulA) on a sample
@@ -863,7 +961,7 @@ def run(ctx):
         ],
         rule="pair = one ordered pair of points (incl. O) of one curve run through every routine and aliasing; small curves are enumerated "
              "(all curves and all ordered pairs for the primes listed in small_curves.complete_primes, sampled curves/pairs above); "
-             "mul/addmul/hasorder = scalar lines incl. 0, 1, q-1, q, q+1, 2^k, all-ones, m = n+1; distinct_nontrivial = distinct op lines",
+             "mul/addmul/hasorder = scalar lines incl. 0, 1, q-1, q, q+1, 2^k, all-ones, and EVERY scalar length m = 1..n+2 with multiples of the point order of exactly m words, zero-padded and cut scalars (exact-size buffers), incl. a curve whose order has n+1 words; distinct_nontrivial = distinct op lines",
         exhaustive=False)
 
 
